@@ -454,6 +454,14 @@ class C19(World):
                         for j, m in enumerate(models):
                             if any(si == i for _, si in m) and "name" in sort_attrs(cmeta[j]):
                                 cmeta[j]["stale"] = True
+                    elif st["attr"] in ("P_supply", "P_target", "h_supply", "h_target"):
+                        # these setters run the full recomputation too: on a stream that sat in the zero-span / zero-duty state
+                        # (and got a duty through set_heat_flow since) that moves t_target and changes CP - a member mutated
+                        # after the collection last sorted, i.e. the listed stale-order finding, not a structural one
+                        for j, m in enumerate(models):
+                            if any(si == i for _, si in m) and sort_attrs(cmeta[j]) & {"t_target", "t_min", "t_max", "t_min_star", "t_max_star", "CP", "heat_flow"}:
+                                cmeta[j]["stale"] = True
+                                probe("member_mutated_after_insertion")
                     probe("other_setter_called")
             elif op in ("set", "set_heat_flow"):
                 if not streams:
@@ -649,6 +657,22 @@ class C19(World):
                                 V("members", op + "|structural", step, f"coll {j}: after a failed batch key {kk!r} holds an object that was never given to it", ("c", j))
                 except Exception as e:
                     V("members", op + "|structural", step, f"coll {j}: key queries raise after a failed batch: {type(e).__name__}", ("c", j))
+                # the model's order is the collection's insertion order (it decides how later clashes are renamed): a replace
+                # rebuilds the members from scratch, so take the order the collection itself reports (repr lists the keys,
+                # un-cached); fall back to "batch order first" for a replace if repr does not parse
+                order = None
+                try:
+                    import ast
+                    r_ = repr(c_)
+                    order = ast.literal_eval(r_[r_.index("(") + 1 : r_.rindex(")")])
+                except Exception:
+                    order = None
+                if isinstance(order, list) and sorted(map(str, order)) == sorted(str(k_) for k_, _ in new_m) and len(order) == len(new_m):
+                    pos_ = {k_: n_ for n_, k_ in enumerate(order)}
+                    new_m.sort(key=lambda e_: pos_[e_[0]])
+                elif how == "replace_none":
+                    in_batch = [e_ for e_ in new_m if e_[0] in seen_k]
+                    new_m = sorted(in_batch, key=lambda e_: cand.index(e_[0])) + [e_ for e_ in new_m if e_[0] not in seen_k]
                 if new_m != old_m:
                     cmeta[j]["stale"] = False  # any insertion marks the cache dirty
                     probe("batch_failed_partially_applied")
